@@ -11,7 +11,19 @@ ES = "porepy/numerics/ad/equation_system.py"
 
 MD = "porepy/grids/md_grid.py"
 
+IT = "porepy/utils/interpolation_tables.py"
+
 MUTANTS = {
+    "C41": [
+        {"name": "cache_coordinates_appended_reversed", "file": IT, "old": "            self._pt = np.hstack((self._pt, coord))", "new": "            self._pt = np.hstack((self._pt, coord[:, ::-1]))"},
+        {"name": "gradient_does_not_fill_cache", "file": IT,
+         "old": "        if self._function is not None:\n            self._fill_values(x)\n\n        # Use standard method for differentiation.",
+         "new": "        # Use standard method for differentiation."},
+        {"name": "revert_upper_boundary_fix", "file": IT, "old": "np.minimum(((x_i - low_i) // h_i).astype(int), npt_i - 2)", "new": "((x_i - low_i) // h_i).astype(int)"},
+        {"name": "known_points_by_coordinate_only_first_axis", "file": IT,
+         "old": "            _, _, exists, _ = pp.array_operations.intersect_sets(coord, self._pt)",
+         "new": "            _, _, exists, _ = pp.array_operations.intersect_sets(coord[:1], self._pt[:1])"},
+    ],
     "C24": [
         {"name": "removal_keeps_interface_pair_entry", "file": MD, "old": "            del self._interface_data[intf]\n            del self._interface_to_subdomains[intf]", "new": "            del self._interface_data[intf]"},
         {"name": "sort_ascending_dimension", "file": MD, "old": "        for dim in np.arange(self.dim_max(), -1, -1):", "new": "        for dim in np.arange(0, self.dim_max() + 1):"},
